@@ -1,4 +1,186 @@
-import LecModel
-import LecGen
+/-
+  C11 — Fragments written on an opposite-endian host are read with the same meaning.
+
+  `foreignHeader h` is what a host of the other endianness stores for the logical header `h`
+  (every multi-byte field byte-reversed, its metadata CRC computed over its own bytes and
+  stored in its own order).
+  `twin_same_metadata`  the metadata query returns the same logical values — index, sizes,
+                        original length, checksum type, checksum, mismatch flag, backend id and
+                        version — for the foreign-order fragment as for the native one, for
+                        every payload (so payload corruption is detected equally);
+  `twin_same_verdict`   header validation accepts both.
+-/
+import LecProofs.FreshLemmas
+import LecProps.C09
 namespace LecProps.C11
+open Lec LecProps.C09
+
+def foreignMeta (m : Meta) : Meta :=
+  { m with idx := bswap32 m.idx, size := bswap32 m.size, bmSize := bswap32 m.bmSize,
+           origSize := bswap64 m.origSize, chksum := m.chksum.map bswap32, beVer := bswap32 m.beVer }
+
+def foreignHeader (h : Header) : Header :=
+  { md := foreignMeta h.md, magic := bswap32 h.magic, libver := bswap32 h.libver,
+    metaCrc := bswap32 (crcStd (foreignMeta h.md).bytes) }
+
+theorem foreign_WF (h : Header) (hw : h.WF) : (foreignHeader h).WF where
+  idx := bswap32_lt _
+  size := bswap32_lt _
+  bmSize := bswap32_lt _
+  origSize := bswap64_lt _
+  ctype := hw.ctype
+  chkLen := by simp [foreignHeader, foreignMeta, hw.chkLen]
+  chk := by
+    intro c hc
+    simp only [foreignHeader, foreignMeta, List.mem_map] at hc
+    obtain ⟨_, _, rfl⟩ := hc
+    exact bswap32_lt _
+  mismatch := hw.mismatch
+  beId := hw.beId
+  beVer := bswap32_lt _
+  magic := bswap32_lt _
+  libver := bswap32_lt _
+  metaCrc := bswap32_lt _
+
+theorem swap_foreign (m : Meta) (h1 : m.idx < 2 ^ 32) (h2 : m.size < 2 ^ 32) (h3 : m.bmSize < 2 ^ 32)
+    (h4 : m.origSize < 2 ^ 64) (h5 : ∀ c ∈ m.chksum, c < 2 ^ 32) (h6 : m.beVer < 2 ^ 32) :
+    swapMeta (foreignMeta m) = m := by
+  obtain ⟨idx, size, bm, orig, ct, chk, mm, be, bv⟩ := m
+  simp only [swapMeta, foreignMeta, bswap32_bswap32 h1, bswap32_bswap32 h2, bswap32_bswap32 h3,
+    bswap64_bswap64 h4, bswap32_bswap32 h6, List.map_map]
+  congr 1
+  have : ∀ l : List Nat, (∀ c ∈ l, c < 2 ^ 32) → List.map (bswap32 ∘ bswap32) l = l := by
+    intro l hl
+    induction l with
+    | nil => rfl
+    | cons x xs ih =>
+      simp only [List.map_cons, Function.comp]
+      rw [bswap32_bswap32 (hl x (by simp)), ih (fun c hc => hl c (by simp [hc]))]
+  exact this chk h5
+
+theorem bswap32_eq_zero {x : Nat} (hx : x < 2 ^ 32) (h : bswap32 x = 0) : x = 0 := by
+  have := bswap32_bswap32 hx
+  rw [h] at this
+  rw [← this]; decide
+
+/-- the result of the checksum stage of the metadata query, as a function of the logical
+    metadata and the payload. -/
+def finish (m : Meta) (p : Bytes) : Meta :=
+  if m.ctype == 2 then
+    let stored := m.chksum.getD 0 0
+    let payload := p.take m.size
+    { m with mismatch := if stored == crcStd payload then 0 else if stored == crcAlt payload then 0 else 1 }
+  else m
+
+theorem native_metadata (h : Header) (hw : h.WF) (p : Bytes) (hm : h.magic = magicC)
+    (hv : h.libver ≠ 0) (hc : h.libver < 0x010200 ∨ h.metaCrc = crcStd h.md.bytes) :
+    getFragmentMetadata (h.bytes ++ p) = .ok (finish h.md p) := by
+  have hp := parseHeader_bytes h hw p
+  have e1 : fMagic (h.bytes ++ p) = magicC := by
+    have := congrArg Header.magic hp; simpa [parseHeader, hm] using this
+  have e2 : fLibver (h.bytes ++ p) = h.libver := by
+    have := congrArg Header.libver hp; simpa [parseHeader] using this
+  have e3 : fMetaCrc (h.bytes ++ p) = h.metaCrc := by
+    have := congrArg Header.metaCrc hp; simpa [parseHeader] using this
+  have e4 : parseMeta (h.bytes ++ p) = h.md := by
+    have := congrArg Header.md hp; simpa [parseHeader] using this
+  have e5 : fMetaBytes (h.bytes ++ p) = h.md.bytes := by
+    have hl : h.md.bytes.length = 59 := meta_bytes_length _ hw.chkLen
+    unfold fMetaBytes Hdr.metaSize
+    simp only [Header.bytes, List.append_assoc]
+    rw [List.take_append_of_le_length (by omega), List.take_of_length_le (by omega)]
+  have e6 : fPayload (h.bytes ++ p) = p := by
+    have hl := header_bytes_length _ hw.chkLen
+    unfold fPayload
+    rw [List.drop_append_of_le_length (by rw [hl]; decide), List.drop_of_length_le (by rw [hl]; decide)]
+    simp
+  have hvalid : isInvalidHeader (h.bytes ++ p) = false := by
+    unfold isInvalidHeader
+    rw [e1, e2, e3, e5]
+    have : (h.libver == 0) = false := by simp [hv]
+    simp only [this, Bool.false_eq_true, if_false, bne_self_eq_false]
+    rcases hc with hc | hc
+    · simp [hc]
+    · simp [hc]
+  unfold getFragmentMetadata
+  rw [hvalid, e1, e4, e6]
+  simp only [Bool.false_eq_true, if_false, bne_self_eq_false, finish]
+  split <;> rfl
+
+theorem twin_metadata (h : Header) (hw : h.WF) (p : Bytes) (hm : h.magic = magicC)
+    (hv : h.libver ≠ 0) :
+    getFragmentMetadata ((foreignHeader h).bytes ++ p) = .ok (finish h.md p) := by
+  have hwf := foreign_WF h hw
+  have hp := parseHeader_bytes (foreignHeader h) hwf p
+  have e1 : fMagic ((foreignHeader h).bytes ++ p) = bswap32 magicC := by
+    have := congrArg Header.magic hp; simpa [parseHeader, foreignHeader, hm] using this
+  have e2 : fLibver ((foreignHeader h).bytes ++ p) = bswap32 h.libver := by
+    have := congrArg Header.libver hp; simpa [parseHeader, foreignHeader] using this
+  have e3 : fMetaCrc ((foreignHeader h).bytes ++ p) = bswap32 (crcStd (foreignMeta h.md).bytes) := by
+    have := congrArg Header.metaCrc hp; simpa [parseHeader, foreignHeader] using this
+  have e4 : parseMeta ((foreignHeader h).bytes ++ p) = foreignMeta h.md := by
+    have := congrArg Header.md hp; simpa [parseHeader, foreignHeader] using this
+  have e5 : fMetaBytes ((foreignHeader h).bytes ++ p) = (foreignMeta h.md).bytes := by
+    have hl : (foreignHeader h).md.bytes.length = 59 := meta_bytes_length _ hwf.chkLen
+    unfold fMetaBytes Hdr.metaSize
+    simp only [Header.bytes, List.append_assoc]
+    rw [List.take_append_of_le_length (by omega), List.take_of_length_le (by omega)]
+    rfl
+  have e6 : fPayload ((foreignHeader h).bytes ++ p) = p := by
+    have hl := header_bytes_length _ hwf.chkLen
+    unfold fPayload
+    rw [List.drop_append_of_le_length (by rw [hl]; decide), List.drop_of_length_le (by rw [hl]; decide)]
+    simp
+  have hne : bswap32 magicC ≠ magicC := by decide
+  have hbb : bswap32 (bswap32 magicC) = magicC := by decide
+  have hl0 : bswap32 h.libver ≠ 0 := fun hz => hv (bswap32_eq_zero hw.libver hz)
+  have hvalid : isInvalidHeader ((foreignHeader h).bytes ++ p) = false := by
+    unfold isInvalidHeader
+    rw [e1, e2, e3, e5]
+    have h0 : (bswap32 h.libver == 0) = false := by simp [hl0]
+    have h1 : (bswap32 magicC != magicC) = true := by decide
+    simp only [h0, Bool.false_eq_true, if_false, h1, if_true, hbb, bne_self_eq_false,
+      bswap32_bswap32 hw.libver, bswap32_bswap32 (crcStd_lt _)]
+    simp
+  unfold getFragmentMetadata
+  rw [hvalid, e1, e4, e6]
+  have h1 : (bswap32 magicC != magicC) = true := by decide
+  simp only [Bool.false_eq_true, if_false, h1, if_true, hbb, bne_self_eq_false]
+  rw [swap_foreign h.md hw.idx hw.size hw.bmSize hw.origSize hw.chk hw.beVer]
+  simp only [finish]
+  split <;> rfl
+
+/-- **C11**: same logical metadata (all nine fields, including the computed mismatch flag) for
+    the native fragment and its opposite-endian twin, for every payload. -/
+theorem twin_same_metadata (h : Header) (hw : h.WF) (p : Bytes) (hm : h.magic = magicC)
+    (hv : h.libver ≠ 0) (hc : h.libver < 0x010200 ∨ h.metaCrc = crcStd h.md.bytes) :
+    getFragmentMetadata ((foreignHeader h).bytes ++ p) = getFragmentMetadata (h.bytes ++ p) := by
+  rw [twin_metadata h hw p hm hv, native_metadata h hw p hm hv hc]
+
+theorem twin_same_verdict (h : Header) (hw : h.WF) (p : Bytes) (hm : h.magic = magicC)
+    (hv : h.libver ≠ 0) (hc : h.libver < 0x010200 ∨ h.metaCrc = crcStd h.md.bytes) :
+    RefAccept ((foreignHeader h).bytes ++ p) ∧ RefAccept (h.bytes ++ p) := by
+  constructor
+  · apply Classical.byContradiction; intro hn
+    have := (metadata_gate _).1 hn
+    rw [twin_metadata h hw p hm hv] at this; cases this
+  · apply Classical.byContradiction; intro hn
+    have := (metadata_gate _).1 hn
+    rw [native_metadata h hw p hm hv hc] at this; cases this
+
+/-- the checksum type survives (it is a single byte and must not be swapped). -/
+theorem twin_ctype (h : Header) (p : Bytes) : (finish h.md p).ctype = h.md.ctype := by
+  unfold finish; split <;> rfl
+
+/-- non-vacuity: a CRC32 fragment and a corrupted payload, read through the foreign twin. -/
+example :
+    let md : Meta := ⟨1, 4, 0, 5, 2, [crcStd [1, 2, 3, 4], 0, 0, 0, 0, 0, 0, 0], 0, 6, 0x010000⟩
+    let h : Header := ⟨md, magicC, 0x010604, crcStd md.bytes⟩
+    (getFragmentMetadata ((foreignHeader h).bytes ++ [1, 2, 3, 4])).toOption.map (fun m => (m.ctype, m.mismatch, m.idx)) = some (2, 0, 1) ∧
+    (getFragmentMetadata ((foreignHeader h).bytes ++ [1, 2, 3, 5])).toOption.map (fun m => (m.ctype, m.mismatch, m.idx)) = some (2, 1, 1) := by
+  decide +kernel
+
+#print axioms twin_same_metadata
+#print axioms twin_same_verdict
+#print axioms twin_ctype
 end LecProps.C11
